@@ -11,10 +11,11 @@ use std::io::Write;
 use std::rc::Rc;
 
 #[derive(Clone, Default)]
-pub struct SharedSink(pub Rc<RefCell<Vec<u8>>>);
+/// `.1` = number of upcoming `flush()` calls that fail (the bytes written before them have been accepted)
+pub struct SharedSink(pub Rc<RefCell<Vec<u8>>>, pub Rc<std::cell::Cell<u32>>);
 impl SharedSink {
     pub fn new() -> Self {
-        SharedSink(Rc::new(RefCell::new(Vec::new())))
+        SharedSink(Rc::new(RefCell::new(Vec::new())), Rc::new(std::cell::Cell::new(0)))
     }
     pub fn bytes(&self) -> Vec<u8> {
         self.0.borrow().clone()
@@ -26,6 +27,10 @@ impl Write for SharedSink {
         Ok(buf.len())
     }
     fn flush(&mut self) -> std::io::Result<()> {
+        if self.1.get() > 0 {
+            self.1.set(self.1.get() - 1);
+            return Err(std::io::Error::other("harness: the sink's flush fails"));
+        }
         Ok(())
     }
 }
